@@ -216,6 +216,16 @@ fn single(opts: &Opts, case: &Case, entry: &Entry, sink: &mut Sink) {
         let viol = |sink: &mut Sink, kind: &str, exp: String, act: String| {
             sink.violation(case, input, kind, exp, act, json!({}));
         };
+        if prop == "C04" && case.note.contains("traced-too") {
+            // the traced entry point of the same parser must not panic either, and must agree
+            user::reset(answers.clone());
+            let traced = (entry.run)(input, Mode::Indented);
+            sink.bump("traced_runs", 1);
+            if traced != real {
+                viol(sink, "traced-entry-point-differs", real.short(), traced.short());
+                continue;
+            }
+        }
         match (&r.result, &real) {
             (_, Real::Panic(m)) => {
                 if matches!(prop, "C01" | "C04" | "C07" | "C08" | "C12") {
